@@ -415,7 +415,8 @@ def flavour_case(args):
     """args = (flavour, victim 'c'|'s', action, seed).  After the handshake of the given flavour and one honest
     exchange in both directions, the on-path attacker acts on the victim's incoming stream in front of the
     peer's next record ('second'); the victim then reads."""
-    flavour, victim, action, seed = args
+    flavour, victim, action, seed = args[:4]
+    fault = args[4] if len(args) > 4 else None
     import loop
     from tlslite import errors as E
     res = dict(args=args, viol=[])
@@ -453,16 +454,53 @@ def flavour_case(args):
         feed = [bytes(r)] + recs
     elif kind == 'swap':
         feed = [recs[-1]] + recs[:-1]
+    elif kind == 'overflow':                  # a record announcing more than any limit allows
+        feed = [bytes([23, 3, 3, 0x50, 0x00]) + bytes(0x5000)] + recs
     elif kind == 'honest':
         feed = recs
     else:
         raise ValueError(kind)
+    if fault is not None:
+        # the transport fails exactly once, on the victim's next send (= the fatal alert for the forged record)
+        import errno
+        import socket
+        exc = {'timeout': socket.timeout('timed out'), 'epipe': socket.error(errno.EPIPE, 'broken pipe'),
+               'reset': socket.error(errno.ECONNRESET, 'reset'), 'oserror': OSError(5, 'io error'),
+               'runtime': RuntimeError('send failed'), 'wouldblock': BlockingIOError(errno.EWOULDBLOCK, 'would block')}[fault]
+        vs = socks[victim]
+        orig_send, armed = vs.send, [True]
+
+        def failing_send(data, orig_send=orig_send, armed=armed, exc=exc):
+            if armed[0]:
+                armed[0] = False
+                raise exc
+            return orig_send(data)
+        vs.send = failing_send
     socks[victim].inbuf += b''.join(feed)
     n0 = len(socks[victim].sent_log)
     got, outcome = _read_all(loop, v, 12)
     res.update(got=got.hex(), outcome=type(outcome).__name__ if isinstance(outcome, Exception) else outcome,
                desc=int(outcome.description) if isinstance(outcome, (E.TLSLocalAlert, E.TLSRemoteAlert)) else None,
                closed=v.closed, resumable=bool(v.session and v.session.resumable))
+    if fault is not None and kind != 'honest':
+        # whatever happened to the alert: nothing of the forged/following records may be delivered, now or by a later
+        # read, and the connection must be closed and its session invalidated
+        what = '%s, %s reading, attacker %s, alert send fails with %s' % (flavour, victim, '/'.join(action), fault)
+        got2, out2 = b'', None
+        try:
+            got2, out2 = _read_all(loop, v, 12)
+        except Exception as e:  # noqa
+            out2 = e
+        res.update(got2=got2.hex(), outcome2=type(out2).__name__ if isinstance(out2, Exception) else out2, closed2=v.closed)
+        if got or got2:
+            res['viol'].append(('data-after-rejection', '%s: read() delivered %r then %r' % (what, got, got2)))
+        if not v.closed:
+            res['viol'].append(('open-after-failed-alert', '%s: connection still open (first outcome %s)' % (what, res['outcome'])))
+        if res['resumable']:
+            res['viol'].append(('still-resumable', what))
+        if outcome == 'eof' or isinstance(outcome, E.TLSRemoteAlert):
+            res['viol'].append(('accepted-as-close', '%s: first read reported %s' % (what, res['outcome'])))
+        return res
     if kind == 'honest':
         if got != b'secondthird!':
             res['viol'].append(('honest-stream-broken', '%s: unmodified stream gave %r %s' % (flavour, got, res['outcome'])))
